@@ -53,7 +53,10 @@ SelfDownCertain(o) ==
     \/ (o.call = "leave" /\ o.res = "Ok")
     \/ /\ o.call = "apply_many" /\ o.res = "Ok"
        /\ \E i \in DOMAIN o.args.updates :
-             /\ o.args.updates[i].id = o.pre.id /\ o.args.updates[i].st = "D"
+             /\ o.args.updates[i].id = o.pre.id
+             \* declared Down, or suspected at the maximum incarnation (cannot be refuted any more)
+             /\ (o.args.updates[i].st = "D" \/ (o.args.updates[i].st = "S" /\ o.args.updates[i].inc = IncMax
+                                                  /\ o.hpre.conn # "U"))
              /\ \A j \in 1..(i - 1) : Addr(o.args.updates[j].id) # Addr(o.pre.id)
 
 C08Step(m, o) ==
